@@ -43,7 +43,7 @@ pub struct Finding {
 pub fn class_of_label(label: &str) -> Class {
     if label.starts_with("GroupBy") || label.starts_with("Fold") || label.starts_with("Reduce") || label == "RichMapCount" || label == "Unique" {
         Class::Agg
-    } else if label.starts_with("Join") {
+    } else if label.starts_with("Join") || label == "SplitJoin" {
         Class::Join
     } else if ["SplitBranch", "RouteBranch", "Merge", "Zip", "ZipPairs", "Broadcast", "BroadcastRaw", "SplitZip"].contains(&label) {
         Class::Fan
